@@ -158,3 +158,24 @@ func staleRevAnnotations(name string) map[string]string {
 	}
 	return a
 }
+
+
+// specParentAndOrdinal reads a pod name the way the property does, independently of the repository's parser: the name is
+// <parent>-<decimal digits>, the digits denote an int32 ordinal; anything else has no ordinal (-1).
+func specParentAndOrdinal(name string) (string, int) {
+	i := strings.LastIndex(name, "-")
+	if i < 0 || i == len(name)-1 {
+		return "", -1
+	}
+	digits := name[i+1:]
+	for _, ch := range digits {
+		if ch < '0' || ch > '9' {
+			return "", -1
+		}
+	}
+	n, err := strconv.ParseInt(digits, 10, 32)
+	if err != nil {
+		return name[:i], -1
+	}
+	return name[:i], int(n)
+}
